@@ -19,6 +19,9 @@ func VerifC01_step_calcTactic() {
 	}
 	if proceed {
 		e.assertRound("after calcTactic")
+		for _, p := range e.ps {
+			vAssert(vOr(e.d.actual[p] >= e.d.strategic[p], e.d.tactic[p] >= 1), "C06: a round proceeds only if every uncrowded priority got at least one handler")
+		}
 		vReach("proceed")
 	} else {
 		e.assertHead("after calcTactic (wait)")
@@ -66,7 +69,9 @@ func VerifC01_step_io() {
 		close(e.ins[i])
 	}
 	drainedBefore := e.d.inputs[p].Drained
-	vTickBudget(3)
+	vTickBudget(2*J + 3)
+	vFairTicks()
+	vExpect("TICK-HORIZON", "ok")
 	var processed uint
 	if cap(e.ins[i]) != 0 {
 		processed = e.d.io(p)
@@ -101,7 +106,9 @@ func VerifC01_step_prioritize() {
 			close(e.ins[i])
 		}
 	}
-	vTickBudget(2 * e.n)
+	vTickBudget(3 * e.n)
+	vFairTicks()
+	vExpect("TICK-HORIZON", "ok")
 	processed := e.d.prioritize()
 	e.assertRound("after prioritize")
 	vAssert(processed == uint(e.sends), "prioritize reports the number of items handed out")
